@@ -1,8 +1,8 @@
 #!/usr/bin/env python3
 """seed_eval.py [--verify] [seed ...] — for every confirmed seeded change under /verif/seeded/<id>/ :
   * check that patch.diff still applies to /repo HEAD,
-  * apply it to /repo (git apply), run the quick check of its property (and optionally of every claimed property), record which rules
-    report a violation, and undo it straight afterwards (git checkout -- .),
+  * apply it to a scratch copy of the sources (or, with --in-repo, to /repo itself: git apply ... git checkout -- .), run the quick check
+    of its property (and with --all-props of every claimed property) on it and record which rules report a violation,
   * with --verify also (re)run tool/verify_seed.sh (scratch worktree under /tmp: build, ctest, demo with/without),
   * rewrite the machine-written part of <id>/meta.json (hand-written fields are kept).
 Never commits anything to /repo."""
@@ -24,6 +24,7 @@ def main():
     args = [a for a in sys.argv[1:] if not a.startswith("--")]
     verify = "--verify" in sys.argv
     allprops = "--all-props" in sys.argv
+    inrepo = "--in-repo" in sys.argv
     seeds = sorted(d for d in os.listdir(os.path.join(HERE, "seeded")) if os.path.isdir(os.path.join(HERE, "seeded", d)))
     if args:
         seeds = [s for s in seeds if s in args]
@@ -45,17 +46,33 @@ def main():
         meta["applies_to_repo_head"] = {"head": head, "ok": chk.returncode == 0}
         det = {}
         if chk.returncode == 0:
+            # default: the change is applied to a scratch copy of the sources the checks read (include/, src/, the date headers) and the
+            # checks are pointed at it with --repo, so /repo's working tree is never touched and several evaluations may run at once;
+            # --in-repo applies it to /repo itself (git apply ... git checkout -- .) as the checks would meet it in practice
+            scratch = None
             try:
-                sh("git -C %s apply %s" % (REPO, patch))
+                if inrepo:
+                    sh("git -C %s apply %s" % (REPO, patch))
+                    where = ""
+                else:
+                    scratch = sh("mktemp -d /tmp/pvseedeval.XXXXXX").stdout.strip()
+                    sh("mkdir -p %s/subprojects/hinnant-date && cp -r %s/include %s/src %s/ && cp -r %s/subprojects/hinnant-date/include %s/subprojects/hinnant-date/"
+                       % (scratch, REPO, REPO, scratch, REPO, scratch))
+                    ap = sh("cd %s && patch -p1 -s --no-backup-if-mismatch < %s" % (scratch, patch))
+                    assert ap.returncode == 0, "patch does not apply to the scratch copy: " + ap.stdout
+                    where = " --repo " + scratch
                 for p in ([prop] + ([c for c in claimed if c != prop] if allprops else [])):
-                    r = sh("%s/check %s --tier quick --no-evidence" % (HERE, p))
+                    r = sh("%s/check %s --tier quick --no-evidence%s" % (HERE, p, where))
                     rules = sorted({ln.split()[1] for ln in r.stdout.splitlines() if ln.strip().startswith("rule ")})
                     if r.returncode == 1 and rules:
                         det[p] = rules
                     elif r.returncode == 2:
                         det[p] = ["ANALYSIS-BROKEN: " + r.stdout.strip().splitlines()[0][:200]]
             finally:
-                sh("git -C %s checkout -- ." % REPO)
+                if inrepo:
+                    sh("git -C %s checkout -- ." % REPO)
+                elif scratch and scratch.startswith("/tmp/pvseedeval."):
+                    sh("rm -rf %s" % scratch)
         if det or chk.returncode == 0:
             meta["detected_by"] = det
         if verify and chk.returncode == 0:
